@@ -100,7 +100,7 @@ def c19(tier):
         if len(parts) > 1:
             files[f2] = "@lexer\n" + "\n".join(parts[1]) + "\n"
         cases.append({"id": "layout-" + "-".join(l), "layout": l, "lox_files": files, "text_names": text_names, "samples": samples,
-                      "files12": (f1, f2)})
+                      "files12": (f1, f2), "rev_parts": [list(reversed(p)) for p in parts]})
     # the parser section needs the *declaration* order to build the sentence the oracle walks: ask TLC for it
     # (render first with a placeholder, then fill in after the gen phase returns Expected -- simpler: a second TLC pass is avoided by
     #  letting the parser rule list the names in text order and having the oracle walk them in declaration order; so the rule is a
@@ -111,7 +111,9 @@ def c19(tier):
     for i, c in enumerate(cases):
         c["ref_names"] = list(c["text_names"])
         kinds = [("u", False), ("ur", True), ("r", True)]
-        for tag, rpt in (kinds if i % 3 == 0 else [kinds[i % 3]]):
+        # "h": the directory already holds the output of an earlier edit of the same project (the same names declared in the
+        # reverse order): the three files must agree with each other and with the *current* declaration order all the same
+        for tag, rpt in (kinds if i % 3 == 0 else [kinds[i % 3]]) + ([("h", False)] if len(c["text_names"]) >= 2 and i % 2 == 0 else []):
             v = json.loads(json.dumps(c))
             v["text_names"] = [tuple(n) for n in v["text_names"]]
             v["samples"] = [(tuple(n), rs) for n, rs in v["samples"]]
@@ -132,6 +134,12 @@ def c19(tier):
         alts = " | ".join(name_str(n) for n in c["ref_names"])
         f1 = c["files12"][0]
         c["lox_files"][f1] += "\n@parser\n@start s = t*\nt = %s\n" % alts
+        if c["id"].endswith("+h"):
+            rp = c["rev_parts"]
+            pre = {f1: "@lexer\n" + "\n".join(rp[0]) + "\n\n@parser\n@start s = t*\nt = %s\n" % alts}
+            if len(rp) > 1:
+                pre[c["files12"][1]] = "@lexer\n" + "\n".join(rp[1]) + "\n"
+            c["pre_lox_files"] = pre
         c["go_text"] = "\n".join([
             "package PKGNAME", "", "type Token struct{ Ty int }", "", "type Parser struct{ lox }", "",
             "func (p *Parser) on_s(ts []Token) int { return len(ts) }", "func (p *Parser) on_t(t Token) Token { return t }", "",
@@ -195,5 +203,12 @@ def c19(tier):
         "layouts_total": total, "states": r0.distinct + r.distinct, "transitions": r0.states + r.states,
         "samples": [{"layout": acc[-1]["layout"], "files": acc[-1]["lox_files"], "consts": acc[-1]["gen"]["base"]["consts"]}],
     }
+    # ---- the numbers in use: whole generated programs (text -> driver over the emitted lexer tables -> parser keyed by the emitted
+    # action rows), modelled by Lox.tla (LexerRT x ParserRT composed where the template pulls a token), judged against the
+    # definition (LexSem token types, then CFG membership), and bound to the compiled programs on the same texts
+    import props_lox
+    rep.coverage.update(props_lox.system_composition(rep, sc, quick, rng, lox))
+    rep.coverage["states"] += rep.coverage.get("system_model_states", 0)
+    rep.coverage["transitions"] += rep.coverage.get("system_model_transitions", 0)
     rep.assumptions = ["TLC/SANY", "renderer of layouts (names encode kind, item index, position)", "simplelexer v0.5.0 (assumes EOF=0, ERROR=1)"]
     return rep.finish("translation_validation")
